@@ -50,6 +50,31 @@ fn gen(pid: &str, r: &mut rng::Rng) -> Option<Value> {
     }
 }
 
+/// greedy shrinking of list-shaped inputs (keys "ops", "args", "lines", "tokens"): drop one element at a time
+fn shrink(pid: &str, mut input: Value, mut detail: Value) -> (Value, Value) {
+    for key in ["ops", "args", "lines", "tokens", "calls"] {
+        if !input.get(key).map(|v| v.is_array()).unwrap_or(false) {
+            continue;
+        }
+        let mut progress = true;
+        while progress {
+            progress = false;
+            let n = input[key].as_array().unwrap().len();
+            for i in (0..n).rev() {
+                let mut cand = input.clone();
+                cand[key].as_array_mut().unwrap().remove(i);
+                if let Some(d) = run_one(pid, &cand) {
+                    input = cand;
+                    detail = d;
+                    progress = true;
+                    break;
+                }
+            }
+        }
+    }
+    (input, detail)
+}
+
 fn main() {
     let args: Vec<String> = std::env::args().collect();
     if args.len() < 4 {
@@ -75,6 +100,7 @@ fn main() {
                 };
                 n += 1;
                 if let Some(detail) = run_one(pid, &input) {
+                    let (input, detail) = shrink(pid, input, detail);
                     println!("{}", json!({"found": true, "evaluations": n, "input": input, "detail": detail}));
                     return;
                 }
